@@ -23,14 +23,14 @@ RULE = ("TLC enumerates every (definition over the field kinds file/file/list/ou
 def generate(ctx):
     if ctx.thorough:
         return ec.tlc_cases(ctx, "ContainerEnv_Gen", "c27",
-                            dict(MaxFiles=3, CopyModesF={"any", "copy", "link"}, Orders={"fwd", "rev"},
+                            dict(MaxFiles=2, CopyModesF={"any", "copy", "link"}, Orders={"fwd", "rev"},
                                  Runtimes={"docker", "singularity"}, RootIds={1, 2, 3}, WithBlank=True,
-                                 ListWithF=True, ListPlain=False),
+                                 ListWithF=True, ListPlain=False, Rich=True),
                             nshards=12, timeout=3000)
     return ec.tlc_cases(ctx, "ContainerEnv_Gen", "c27",
                         dict(MaxFiles=2, CopyModesF={"any", "copy", "link"}, Orders={"fwd", "rev"},
                              Runtimes={"docker", "singularity"}, RootIds={1, 2, 3}, WithBlank=True,
-                             ListWithF=False, ListPlain=True),
+                             ListWithF=False, ListPlain=True, Rich=False),
                         nshards=6)
 
 
@@ -47,9 +47,9 @@ def apply_verdicts(ctx, case, obs):
     if obs.get("dup_binds"):
         ctx.observe("the same bind mount is given more than once", {"fields": case["c"]["fields"]})
     if case["open"] and "prefix" in obs:
-        modes = sorted(b[1] for b in obs["prefix"]["binds"] if len(b) == 2 and b[1].endswith(":*"))
-        ctx.observe("directory holding both a read-only (linked) input and an output/copied input: "
-                    "mode not decided by the statement", {"open": case["open"], "binds": modes})
+        for host, mode in sorted(obs.get("open_modes", {}).items()):
+            ctx.observe("directory holding both a read-only (linked) input and an output/copied input is mounted "
+                        f"{mode} (mode not decided by the statement)", {"dir": host, "fields": case["c"]["fields"]})
 
 
 def selftest(ctx, cases):
